@@ -764,6 +764,11 @@ func UnmarshalTypeYAML(value *yaml.Node) (Type, error) {
 	case "!generic":
 		return UnmarshalGenericNode(value)
 	case "!!seq":
+		if value.Kind != yaml.SequenceNode {
+			// an explicit `!!seq` tag on something that is not a sequence
+			return nil, parseError(value, "a union must be specified as a sequence of types")
+		}
+
 		cases, err := UnmarshalTypeCases(value)
 		return &GeneralizedType{NodeMeta: createNodeMeta(value), Cases: cases, Dimensionality: nil}, err
 	case "!vector":
